@@ -122,7 +122,10 @@ def body_functional(c, ctx):
         per = [exact_cell_integral(kind, m.p[:, m.t[:nl, k]], f) for k in cells]
         # orientation: x^alpha integrated with |det|: unsigned measure
         want = float(sum(per))
-        scale = float(sum(abs(x) for x in per)) + 1e-300
+        # magnitude of what is summed: |integral| per cell, plus measure x sup|x^alpha| (exact integrals can vanish by symmetry)
+        from ..oracle import geom as _g
+        sup = float(np.prod([np.abs(m.p[k]).max() ** alpha[k] for k in range(d)]))
+        scale = float(sum(abs(x) for x in per)) + _g.cell_measures(m)[cells].sum() * sup + 1e-300
         got = float(Functional(integrand).assemble(basis))
         ctx.close('functional_cells', got, want, 2e-11, scale, **sig)
         el = np.asarray(Functional(integrand).elemental(basis))
@@ -165,7 +168,9 @@ def body_functional(c, ctx):
             P = [[Fr(float(x)) for x in row] for row in m.p[:, vs]]
             per.append(polyq.int_poly_facet(f, P))
         want = float(sum(per))
-        scale = float(sum(abs(x) for x in per)) + 1e-300
+        sup = float(np.prod([np.abs(m.p[k]).max() ** alpha[k] for k in range(d)]))
+        fmeas = sum(polyq.int_poly_facet(polyq.Poly.const(1, d), [[Fr(float(x)) for x in row] for row in m.p[:, m.facets[:, fc]]]) for fc in facets)
+        scale = float(sum(abs(x) for x in per)) + fmeas * sup + 1e-300
         got = float(Functional(integrand).assemble(basis))
         ctx.close('functional_facets', got, want, 2e-11, scale, **sig)
         el = np.asarray(Functional(integrand).elemental(basis))
